@@ -550,6 +550,39 @@ Definition run_c02_path (x : xval) : xval :=
   | _ => bad_input
   end.
 
+(** component c02.ae: (L (B accept-encoding value) (N target)) -> Ok (L answer answer), answer = (L (N status) (L [content-encoding])).
+    The harness sends the same well-formed GET with this [accept-encoding] value twice on one connection (the second meets what the
+    first left in the response cache and in the memo cells) to a page of its fixture; the model gives what [clone_preferred]
+    ([Negotiate.clone_preferred], the model C06 ties to the code) settles on: the 406 page (which [error::default] labels "identity", as every error page) when
+    identity is refused and nothing else applies, else the page's status with the name of the chosen coding.  The weight of a member goes
+    through [f32::from_str] ([Negotiate.parse_q_dec]: also "nan", "inf", "1e400", "-0", ".5", "1.", "+1") and is consulted ONLY by
+    the three tests [== 0.0], [!= 0.0] and [== 1.0] — total on every binary32 value, NaN included ([Negotiate.qclass]); nothing on
+    the request path orders or sorts client-controlled floats.
+    targets: 0 [/h] (handler, cached), 1 [/nc] (handler, never cached), 2 [/index.html] (file), 3 the built-in 404 page of a host
+    without an errors directory, 4 [/sub/] (a 12-byte file: under the 50-byte floor the response is never compressed). *)
+Definition ae_targets : list (N * bool) := [(200, true); (200, true); (200, true); (404, true); (200, false)].
+Definition ae_page (big : bool) : Negotiate.cresp :=
+  Negotiate.cresp_new (repeat 97 (if big then 60 else 12)) (Some (B "text/html")) None true.
+Definition ae_options : Negotiate.options := Negotiate.mkOptions Negotiate.PZstd 0 0 0.
+Definition ae_answer (parse_q : bytes -> option Negotiate.qclass) (status : N) (big : bool) (ae : option bytes)
+  : N * option bytes :=
+  match fst (Negotiate.clone_preferred parse_q Negotiate.parse_mime_std Negotiate.enc_tag (ae_page big) ae ae_options) with
+  | Negotiate.NotAcceptable => (406, Some Negotiate.s_identity)   (* [error::default] labels every error page "identity" *)
+  | Negotiate.Sent label _ _ => (status, label)
+  end.
+Definition run_c02_ae (x : xval) : xval :=
+  match x with
+  | XL [XB ae; XN target] =>
+      match nth_error ae_targets (N.to_nat target) with
+      | Some (status, big) =>
+          let a := ae_answer Negotiate.parse_q_dec status big (Some ae) in
+          let xa := XL [XN (fst a); x_option XB (snd a)] in
+          XL [XN 0; XL [xa; xa]]
+      | None => bad_input
+      end
+  | _ => bad_input
+  end.
+
 (** components explore.*: exploration runs (a live connection, crates that are not modelled).
     The "model" is the claim under test — the run ends cleanly — so that a panic shows up as
     a difference as well as in the model-independent oracle. *)
@@ -564,6 +597,7 @@ Definition panics_table : list (bytes * (xval -> xval)) :=
     (B "stream.window", run_stream_window);
     (B "cc.kvarn", run_cc_kvarn);
     (B "c02.path", run_c02_path);
+    (B "c02.ae", run_c02_ae);
     (B "explore.conn", run_explore);
     (B "explore.server", run_explore);
     (B "explore.file", run_explore);
